@@ -139,6 +139,21 @@ add(property='C05', id='C05-parabola-cancellation', status='open', clause='chief
                               surf(R=10.585374853750517, k=-1.0, t=3.5284582845835057, mat=glass(1.5214))],
                              ap=('EPD', 16.0), fields=(0.0, 1.0), img=glass(1.5214))})
 
+add(property='C01', id='C01-solve-slope', status='fixed', commit='08843a4', clause='solve_places_marginal_ray',
+    what='fixed: property=C01 08843a4 marginal_ray_height solve (and image_solve) used the marginal slope behind the '
+         'moved surface: on a powered surface the requested height was missed (two mirrors, R=5: 2.0 instead of 0.0)',
+    reproducer={'kind': 'edit', 'spec': spec([surf(R=40.0, t=5.0, mat=glass(1.6), stop=True), surf(R=-30.0, t=20.0),
+                                             surf(R=25.0, t=4.0, mat=glass(1.5)), surf(R='inf', t=30.0)],
+                                            ap=('EPD', 8.0), fields=(0.0, 3.0)),
+                'ops': [{'op': 'solve', 's': 1, 'h': 1.5}, {'op': 'set_radius', 's': 0, 'v': 55.0}, {'op': 'update'},
+                        {'op': 'set_index', 's': 2, 'v': 1.7}, {'op': 'image_solve'}]})
+
+add(property='C01', id='C01-conic-lost', status='fixed', commit='3e03bb0', clause='conics',
+    what='fixed: property=C01 3e03bb0 set_radius on a flat surface discarded the conic constant set on it earlier',
+    reproducer={'kind': 'edit', 'spec': spec([surf(R='inf', t=5.0, mat=glass(1.6), stop=True), surf(R=-30.0, t=20.0)],
+                                            ap=('EPD', 8.0), fields=(0.0, 3.0)),
+                'ops': [{'op': 'set_conic', 's': 0, 'v': -1.0}, {'op': 'set_radius', 's': 0, 'v': 55.0}]})
+
 if __name__ == '__main__':
     json.dump({'findings': F}, open(os.path.join(HERE, 'known_findings.json'), 'w'), indent=1)
     print(len(F), 'findings written')
